@@ -275,6 +275,12 @@ def make_symbolic_parser(E, o, name="ini"):
     return d
 
 
+def _interpolates(o):
+    """BasicInterpolation unless the real constructor call passed interpolation=None to the stdlib base class"""
+    a, k = o.fields.get("__ext_init__", ((), {}))
+    return not ("interpolation" in k and k["interpolation"] is None)
+
+
 def _parser_method(M, pv, name, args, kwargs):
     E = M.E
     o = pv.obj
@@ -319,7 +325,7 @@ def _parser_method(M, pv, name, args, kwargs):
         elif not isinstance(val, str):
             raise PyRaise(ExcVal(TypeError, ("option values must be strings",)))
         # interpolation syntax: a '%' makes set() validate the value (ValueError on bad syntax) and get() rewrite it
-        if E.decide(sym.contains(val, "%") if isinstance(val, SV) else ("%" in val)):
+        if _interpolates(o) and E.decide(sym.contains(val, "%") if isinstance(val, SV) else ("%" in val)):
             E.havoc("'%' in an INI value (interpolation)")
             if E.decide(E.fresh("bad_interpolation", z3.BoolSort())):
                 raise PyRaise(ExcVal(ValueError, ("invalid interpolation syntax",)))
@@ -346,7 +352,7 @@ def _parser_method(M, pv, name, args, kwargs):
         v = e2.value
         if isinstance(v, SV):
             E.assume(sym.is_str(v))
-        if E.decide(sym.contains(v, "%") if isinstance(v, SV) else ("%" in v)):
+        if _interpolates(o) and E.decide(sym.contains(v, "%") if isinstance(v, SV) else ("%" in v)):
             E.havoc("'%' in an INI value (interpolation)")
         if name == "get":
             return v
